@@ -13,6 +13,8 @@ var SpecialNames = []string{
 	"user", "a.b", "x@example.com", "x@[1.2.3.4]", "o'brien", "50%off", "a#b", "q?r", "a&b=c",
 	"{curly}", "pipe|name", "ti~lde", "back`tick", "dollar$", "ex!cl", "ca^ret", "st*ar", "un_der",
 	"x@sub.example.org", "0", "-dash",
+	// a literal percent sign followed by two hex digits must survive exactly one URL decoding
+	"x%41y", "a%2Fb", "p%25q",
 }
 
 var (
